@@ -37,7 +37,7 @@ func splitList(lines []string) []string {
 
 func main() {
 	run := verdict.Start("C09", "exploration",
-		"requests over real TCP from several source addresses (127.0.0.1-8, ::1, the interface's own IPv4/IPv6 when present) x {HTTP/1.1, HTTP/2} x {0,1,3} client X-Forwarded-For lines (IPv4, IPv6, garbage) x client Forwarded / X-Forwarded-Host / X-Forwarded-Proto nonces present or not x Host forms x host preservation on/off; distinct by the full tuple")
+		"requests over real TCP from several source addresses (127.0.0.1-8, ::1, the interface's own IPv4/IPv6 when present) x {HTTP/1.1 with ALPN, HTTP/1.1 without ALPN, HTTP/2} x {0,1,3} client X-Forwarded-For lines (IPv4, IPv6, garbage) x client Forwarded / X-Forwarded-Host / X-Forwarded-Proto nonces present or not x Host forms x host preservation on/off; distinct by the full tuple")
 	be := rig.NewBackend(nil)
 	defer be.Close()
 	pOff, err := rig.StartProxy(be.URL, rig.ProxyOpts{ListenAddr: ":0"})
@@ -92,7 +92,7 @@ func main() {
 	var cases []tcase
 	rng := run.Rand(9)
 	for _, preserve := range []bool{false, true} {
-		for _, proto := range []string{"http/1.1", "h2"} {
+		for _, proto := range []string{"http/1.1", "h2", "no-alpn"} {
 			for si, s := range srcs {
 				for xi, xff := range xffSets {
 					for fw := 0; fw < 2; fw++ {
@@ -114,7 +114,7 @@ func main() {
 		for k := rng.Intn(4); k > 0; k-- {
 			xff = append(xff, []string{"203.0.113.9", "2001:db8::9", "x", "1.2.3.4, 5.6.7.8", " 9.9.9.9 "}[rng.Intn(5)])
 		}
-		cases = append(cases, tcase{Family: "random", Preserve: rng.Intn(2) == 0, Proto: []string{"http/1.1", "h2"}[rng.Intn(2)], LocalIP: s.ip, Target: s.target, Host: hosts[rng.Intn(len(hosts))], XFFClient: xff})
+		cases = append(cases, tcase{Family: "random", Preserve: rng.Intn(2) == 0, Proto: []string{"http/1.1", "h2", "no-alpn"}[rng.Intn(3)], LocalIP: s.ip, Target: s.target, Host: hosts[rng.Intn(len(hosts))], XFFClient: xff})
 	}
 
 	var wg sync.WaitGroup
@@ -165,7 +165,11 @@ func main() {
 			tag := fmt.Sprintf("C09-%d-%d", run.Seed, i)
 			hs = append(hs, [2]string{name(rig.TagHeader), tag})
 			local := &net.TCPAddr{IP: net.ParseIP(c.LocalIP)}
-			s, err := rig.Dial(net.JoinHostPort(c.Target, port(px)), []string{c.Proto}, local, nil)
+			alpn := []string{c.Proto}
+			if c.Proto == "no-alpn" {
+				alpn = nil // HTTP/1.1 client whose ClientHello carries no ALPN extension
+			}
+			s, err := rig.Dial(net.JoinHostPort(c.Target, port(px)), alpn, local, nil)
 			if err != nil {
 				run.Add("dial_failed", 1)
 				return
@@ -240,6 +244,7 @@ func main() {
 	wg.Wait()
 	run.Require("requests_judged_h2", 100)
 	run.Require("requests_judged_http/1.1", 100)
+	run.Require("requests_judged_no-alpn", 50)
 	run.Assume("peer addresses are limited to the addresses configured on this machine (loopback range, ::1 and the interface addresses)")
 	run.Finish()
 }
